@@ -1430,4 +1430,348 @@ theorem calc_eq_incr (ε f : Rat) (hf : 0 < f + ε) (s : Scale) (hs : StrictSort
   ring
 
 
+
+/-! ## 7. Round 2: monotonicity and Lipschitz bounds of the tax function, monotone bracket index -/
+
+theorem pp_mono {a b : Rat} (h : a ≤ b) : pp a ≤ pp b := by unfold pp; grind
+theorem pp_diff_le {a b : Rat} (h : a ≤ b) : pp b - pp a ≤ b - a := by unfold pp; grind
+theorem pp_clip_mono (x x' t t' : Rat) (h : t ≤ t') (hx : x ≤ x') :
+    pp (x - t) - pp (x - t') ≤ pp (x' - t) - pp (x' - t') := by unfold pp; grind
+
+/-- the tax difference between two bases lies between `-R` and `R` times the part of `[x, x']` above the
+first threshold, when every rate lies in `[-R, R]` … and is `≥ 0` when every rate is -/
+theorem clipSum_diff_bounds (R : Rat) (t : Rat) (r : Rat) (rest : Scale) (hl : WSorted ((t, r) :: rest))
+    (hR : ∀ c ∈ (t, r) :: rest, -R ≤ c.2 ∧ c.2 ≤ R) (x x' : Rat) (hxx : x ≤ x') :
+    clipSum none true ((t, r) :: rest) x' - clipSum none true ((t, r) :: rest) x ≤ R * (pp (x' - t) - pp (x - t)) ∧
+    -(R * (pp (x' - t) - pp (x - t))) ≤ clipSum none true ((t, r) :: rest) x' - clipSum none true ((t, r) :: rest) x := by
+  induction rest generalizing t r with
+  | nil =>
+    have h := hR (t, r) List.mem_cons_self
+    have hA : 0 ≤ pp (x' - t) - pp (x - t) := by have := pp_mono (show x - t ≤ x' - t by linarith); linarith
+    simp only [clipSum, brTerm, if_true]
+    change r * pp (x' - t) - r * pp (x - t) ≤ _ ∧ _ ≤ r * pp (x' - t) - r * pp (x - t)
+    constructor <;> nlinarith [h.1, h.2]
+  | cons b rest ih =>
+    obtain ⟨t', r'⟩ := b
+    rw [wsorted_cons] at hl
+    have htt : t ≤ t' := hl.1 (t', r') List.mem_cons_self
+    obtain ⟨i1, i2⟩ := ih t' r' hl.2 (fun c hc => hR c (List.mem_cons_of_mem _ hc))
+    have h := hR (t, r) List.mem_cons_self
+    simp only [clipSum, brTerm]
+    rw [pp_clip x' t t' htt, pp_clip x t t' htt]
+    have hB : 0 ≤ pp (x' - t') - pp (x - t') := by have := pp_mono (show x - t' ≤ x' - t' by linarith); linarith
+    have hAB := pp_clip_mono x x' t t' htt hxx
+    constructor <;> nlinarith [h.1, h.2]
+
+theorem clipSum_mono (l : Scale) (hl : WSorted l) (hr : ∀ c ∈ l, 0 ≤ c.2) (x x' : Rat) (hxx : x ≤ x') :
+    clipSum none true l x ≤ clipSum none true l x' := by
+  induction l with
+  | nil => simp [clipSum]
+  | cons a rest ih =>
+    obtain ⟨t, r⟩ := a
+    rw [wsorted_cons] at hl
+    have ih := ih hl.2 (fun c hc => hr c (List.mem_cons_of_mem _ hc))
+    have h0 : 0 ≤ r := hr (t, r) List.mem_cons_self
+    cases rest with
+    | nil =>
+      simp only [clipSum, brTerm, if_true]
+      have := pp_mono (show x - t ≤ x' - t by linarith)
+      unfold pp at this
+      exact mul_le_mul_of_nonneg_left this h0
+    | cons b rest =>
+      obtain ⟨t', r'⟩ := b
+      have htt : t ≤ t' := hl.1 (t', r') List.mem_cons_self
+      simp only [clipSum, brTerm] at ih ⊢
+      rw [pp_clip x' t t' htt, pp_clip x t t' htt]
+      have := pp_clip_mono x x' t t' htt hxx
+      nlinarith
+
+theorem bracketIndex_mono (ε f : Rat) (rd : Option Nat) (s : Scale) {x x' : Rat} (h : x ≤ x') :
+    bracketIndex ε f rd s x ≤ bracketIndex ε f rd s x' := by
+  unfold bracketIndex
+  have : s.countP (fun b => decide (0 ≤ x - thrMap ε f rd b.1)) ≤ s.countP (fun b => decide (0 ≤ x' - thrMap ε f rd b.1)) := by
+    apply List.countP_mono_left
+    intro c _ hc
+    simp only [decide_eq_true_eq] at hc ⊢
+    linarith
+  omega
+
+/-! ## 8. Round 2: guarded single-amount scale, `to_dict`, `numpy.select` -/
+
+/-! ### the single-amount scale with its guards -/
+
+theorem digitizeE_fin (right : Bool) (s : Scale) (x : Rat) :
+    digitizeE right (guardedBins s) (.fin x) = digitize right s x + 1 := by
+  have hp : ((fun b : EBase => if right then b.ltB (.fin x) else b.leB (.fin x)) ∘ (fun b : Rat × Rat => EBase.fin b.1))
+      = fun b : Rat × Rat => if right then decide (b.1 < x) else decide (b.1 ≤ x) := by
+    funext b; cases right <;> rfl
+  have h1 : (if right then EBase.negInf.ltB (.fin x) else EBase.negInf.leB (.fin x)) = true := by cases right <;> rfl
+  have h2 : (if right then EBase.posInf.ltB (.fin x) else EBase.posInf.leB (.fin x)) = false := by cases right <;> rfl
+  unfold digitizeE guardedBins digitize
+  rw [List.countP_cons, List.countP_append, List.countP_map, hp, List.countP_cons, List.countP_nil, h1, h2]
+  simp
+
+theorem guardedAmounts_getD (s : Scale) (k : Nat) (hk : k < s.length) :
+    (guardedAmounts s).getD (k + 1) 0 = (s.getD k (0, 0)).2 := by
+  unfold guardedAmounts
+  rw [List.getD_cons_succ]
+  simp only [List.getD_eq_getElem?_getD]
+  rw [List.getElem?_append_left (by simpa using hk)]
+  simp [List.getElem?_map]
+  cases h : s[k]? with
+  | none => simp at h; omega
+  | some b => simp
+
+/-- on a finite base the guarded computation is `calcSA`: the guards are only met at `±inf` -/
+theorem calcSAE_fin (right : Bool) (s : Scale) (x : Rat) : calcSAE right s (.fin x) = .ok (calcSA right s x) := by
+  unfold calcSAE calcSA
+  rw [digitizeE_fin]
+  have hle : digitize right s x ≤ s.length := by unfold digitize; exact List.countP_le_length
+  have hlen : (guardedAmounts s).length = s.length + 2 := by simp [guardedAmounts]
+  unfold pyIndex
+  rw [if_pos (by rw [hlen]; push_cast; omega)]
+  have : ((digitize right s x + 1 : Nat) : Int) - 1 = (digitize right s x : Nat) := by push_cast; ring
+  rw [this, Int.toNat_natCast]
+  cases hd : digitize right s x with
+  | zero => simp [guardedAmounts]
+  | succ k => rw [guardedAmounts_getD s k (by omega)]
+
+/-! ### `to_dict` -/
+
+def keysOf (d : List (Rat × Rat)) : List Rat := d.map (·.1)
+
+theorem dictSet_fresh (d : List (Rat × Rat)) (k v : Rat) (h : ∀ c ∈ d, c.1 ≠ k) : dictSet d k v = d ++ [(k, v)] := by
+  induction d with
+  | nil => rfl
+  | cons a rest ih =>
+    obtain ⟨k', v'⟩ := a
+    have hne : k' ≠ k := h (k', v') List.mem_cons_self
+    simp only [dictSet, hne, if_false, List.cons_append]
+    rw [ih (fun c hc => h c (List.mem_cons_of_mem _ hc))]
+
+theorem foldl_dictSet_sorted (s : Scale) (hs : StrictSorted s) :
+    ∀ acc : List (Rat × Rat), (∀ a ∈ acc, ∀ c ∈ s, a.1 < c.1) → s.foldl (fun d b => dictSet d b.1 b.2) acc = acc ++ s := by
+  induction s with
+  | nil => intro acc _; simp
+  | cons b rest ih =>
+    intro acc hacc
+    rw [strictSorted_cons] at hs
+    simp only [List.foldl_cons]
+    rw [dictSet_fresh acc b.1 b.2 (fun c hc => ne_of_lt (hacc c hc b List.mem_cons_self))]
+    rw [ih hs.2]
+    · simp
+    · intro a ha c hc
+      rcases List.mem_append.mp ha with h | h
+      · exact hacc a h c (List.mem_cons_of_mem _ hc)
+      · simp at h; subst h; exact hs.1 c hc
+
+/-- the dict of a scale built by `add_bracket` (strictly sorted) lists its brackets, in order -/
+theorem toDict_sorted (s : Scale) (hs : StrictSorted s) : toDict s = s := by
+  unfold toDict
+  rw [foldl_dictSet_sorted s hs [] (by simp)]
+  simp
+
+/-! ### `commons.apply_thresholds`, `commons.marginal_rate` -/
+
+theorem selectFirst_split (pre : List (Bool × Rat)) (c : Rat) (post : List (Bool × Rat)) (h : ∀ p ∈ pre, p.1 = false) :
+    selectFirst (pre ++ (true, c) :: post) = c := by
+  induction pre with
+  | nil => simp [selectFirst]
+  | cons a rest ih =>
+    obtain ⟨b, v⟩ := a
+    have hb : b = false := h (b, v) List.mem_cons_self
+    subst hb
+    simp only [List.cons_append, selectFirst, Bool.false_eq_true, if_false]
+    exact ih (fun p hp => h p (List.mem_cons_of_mem _ hp))
+
+theorem selectFirst_none (l : List (Bool × Rat)) (h : ∀ p ∈ l, p.1 = false) : selectFirst l = 0 := by
+  induction l with
+  | nil => rfl
+  | cons a rest ih =>
+    obtain ⟨b, v⟩ := a
+    have hb : b = false := h (b, v) List.mem_cons_self
+    subst hb
+    simp only [selectFirst, Bool.false_eq_true, if_false]
+    exact ih (fun p hp => h p (List.mem_cons_of_mem _ hp))
+
+/-! ## 9. Round 2: thresholds of a combination -/
+
+/-- the thresholds after `combine_bracket(rate, lo, hi)`: those of the receiver, `lo`, and `hi` when given -/
+theorem combineBracket_hasT (s : Scale) (hs : StrictSorted s) (rate lo : Rat) (hi : Option Rat)
+    (hlh : ∀ h ∈ hi, lo < h ∧ h ≠ 0) (u : Rat) :
+    hasT (combineBracket s rate lo hi) u
+      = (hasT s u || decide (lo = u) || (match hi with | some h => decide (h = u) | none => false)) := by
+  obtain ⟨_, a2, a3⟩ := splitAt_spec (fun t => t) s hs lo 0
+  cases hi with
+  | none =>
+    simp only [combineBracket, Option.filter]
+    have hlo : hasT (splitAt s lo) lo = true := by rw [a3]; simp
+    obtain ⟨hidx, _⟩ := indexT_spec _ lo hlo
+    obtain ⟨_, e2⟩ := bumpLoop_spec (fun t => t) rate 0 ((splitAt s lo).length - indexT (splitAt s lo) lo)
+      (indexT (splitAt s lo) lo) (splitAt s lo) 0 a2 (by omega)
+    rw [hasT_of_thresholds e2, a3]; simp
+  | some h =>
+    obtain ⟨hlt, hne⟩ := hlh h rfl
+    have hf : (some h : Option Rat).filter (fun h => h ≠ 0) = some h := by simp [Option.filter, hne]
+    simp only [combineBracket, hf]
+    obtain ⟨_, b2, b3⟩ := splitAt_spec (fun t => t) (splitAt s lo) a2 h 0
+    have hlo : hasT (splitAt (splitAt s lo) h) lo = true := by rw [b3, a3]; simp
+    have hhi : hasT (splitAt (splitAt s lo) h) h = true := by rw [b3]; simp
+    have hord := indexT_lt _ b2 lo h hlo hhi hlt
+    obtain ⟨hidx, _⟩ := indexT_spec _ h hhi
+    obtain ⟨_, e2⟩ := bumpLoop_spec (fun t => t) rate 0 (indexT (splitAt (splitAt s lo) h) h - indexT (splitAt (splitAt s lo) h) lo)
+      (indexT (splitAt (splitAt s lo) h) lo) (splitAt (splitAt s lo) h) 0 b2 (by omega)
+    rw [hasT_of_thresholds e2, b3, a3]
+
+theorem hasT_cons' (b : Rat × Rat) (s : Scale) (u : Rat) : hasT (b :: s) u = (decide (b.1 = u) || hasT s u) := by
+  simp [hasT]
+
+/-- the thresholds of `a.add_tax_scale(b)` are those of `a` and those of `b` -/
+theorem addTaxScaleGo_hasT (b : Scale) (hb : StrictSorted b) (hnz : TailNZ b) (u : Rat) :
+    ∀ s, StrictSorted s → hasT (addTaxScaleGo s b) u = (hasT s u || hasT b u) := by
+  induction b with
+  | nil => intro s _; simp [addTaxScaleGo, hasT]
+  | cons a rest ih =>
+    obtain ⟨t, r⟩ := a
+    rw [strictSorted_cons] at hb
+    cases rest with
+    | nil =>
+      intro s hs
+      simp only [addTaxScaleGo]
+      rw [combineBracket_hasT s hs r t none (by simp) u, hasT_cons']
+      simp [hasT]
+    | cons c rest =>
+      obtain ⟨t', r'⟩ := c
+      intro s hs
+      have htt : t < t' := hb.1 (t', r') List.mem_cons_self
+      have hne : t' ≠ 0 := hnz (t', r') List.mem_cons_self
+      have hlh : ∀ h ∈ (some t' : Option Rat), t < h ∧ h ≠ 0 := by intro h hh; simp at hh; subst hh; exact ⟨htt, hne⟩
+      obtain ⟨_, e2⟩ := combineBracket_spec (fun t => t) s hs r t (some t') hlh 0
+      have hnz' : TailNZ ((t', r') :: rest) := fun c hc => hnz c (List.mem_cons_of_mem _ hc)
+      simp only [addTaxScaleGo]
+      rw [ih hb.2 hnz' (combineBracket s r t (some t')) e2, combineBracket_hasT s hs r t (some t') hlh u]
+      rw [hasT_cons' (t, r), hasT_cons' (t', r')]
+      simp only
+      cases hasT s u <;> cases decide (t = u) <;> cases decide (t' = u) <;> cases hasT rest u <;> rfl
+
+theorem mapM_pyIndex_map (l : List Rat) (g : Rat → Int) (xs : List Rat) :
+    (xs.map g).mapM (pyIndex l) = xs.mapM (fun x => pyIndex l (g x)) := by
+  induction xs with
+  | nil => rfl
+  | cons x xs ih => simp only [List.map_cons, List.mapM_cons, ih]
+
+/-! ## 10. Round 2: what `to_average` produces -/
+
+theorem avgL_mem_thr (rest : Scale) : ∀ (i pt pr : Rat) (c : Rat × Rat), c ∈ avgL i pt pr rest → ∃ d ∈ rest, d.1 = c.1 := by
+  induction rest with
+  | nil => intro i pt pr c hc; simp [avgL] at hc
+  | cons b rest ih =>
+    obtain ⟨t, r⟩ := b
+    intro i pt pr c hc
+    simp only [avgL, List.mem_cons] at hc
+    rcases hc with h | h
+    · exact ⟨(t, r), List.mem_cons_self, by rw [h]⟩
+    · obtain ⟨d, hd, e⟩ := ih _ _ _ c h
+      exact ⟨d, List.mem_cons_of_mem _ hd, e⟩
+
+/-- the average rate stored for a threshold, times the threshold, is the tax accumulated up to it: `i` (the tax at
+`pt`) plus the tax of the brackets from `pt` on -/
+theorem avgL_spec (rest : Scale) : ∀ (i pt pr : Rat), StrictSorted ((pt, pr) :: rest) → 0 ≤ pt →
+    ∀ c ∈ avgL i pt pr rest, c.2 * c.1 = i + clipSum none true ((pt, pr) :: rest) c.1 := by
+  induction rest with
+  | nil => intro i pt pr _ _ c hc; simp [avgL] at hc
+  | cons b rest ih =>
+    obtain ⟨t, r⟩ := b
+    intro i pt pr hs hpt c hc
+    have hs' := strictSorted_cons.mp hs
+    have htt : pt < t := hs'.1 (t, r) List.mem_cons_self
+    have ht0 : t ≠ 0 := by intro e; rw [e] at htt; linarith
+    simp only [avgL, List.mem_cons] at hc
+    rcases hc with h | h
+    · rw [h]
+      simp only [clipSum, brTerm]
+      rw [clipSum_zero_of_le true ((t, r) :: rest) t (by
+        intro d hd
+        rcases List.mem_cons.mp hd with e | e
+        · rw [e]
+        · exact le_of_lt ((strictSorted_cons.mp hs'.2).1 d e))]
+      rw [min_self, max_eq_left (by linarith), div_mul_cancel₀ _ ht0]; ring
+    · have := ih (i + pr * (t - pt)) t r hs'.2 (by linarith) c h
+      rw [this]
+      obtain ⟨d, hd, e⟩ := avgL_mem_thr rest _ _ _ c h
+      have hct : t < c.1 := by rw [← e]; exact (strictSorted_cons.mp hs'.2).1 d hd
+      simp only [clipSum, brTerm]
+      rw [min_eq_right hct.le, max_eq_left (by linarith)]; ring
+
+
+/-- what `to_average()` produces on a sorted scale with first threshold `≥ 0`: finite brackets `(0, 0)`, the first
+threshold with rate 0 when it is positive, then one bracket per later threshold; the `Inf` bracket carries the last rate;
+every finite average rate times its threshold is the tax of the scale at that threshold -/
+theorem toAverage_spec (t0 r0 : Rat) (rest : Scale) (hs : StrictSorted ((t0, r0) :: rest)) (h0 : 0 ≤ t0) :
+    ∃ a, toAverage ((t0, r0) :: rest) = .ok a ∧ a.top = some (lastRate r0 rest) ∧
+      (∀ c ∈ a.fin, c.2 * c.1 = clipSum none true ((t0, r0) :: rest) c.1) ∧
+      (∀ u, hasT a.fin u = (decide (u = 0) || hasT ((t0, r0) :: rest) u)) := by
+  have hnil : addBracket [] 0 0 = [(0, 0)] := by decide +kernel
+  have hzero : ∀ x, x ≤ t0 → clipSum none true ((t0, r0) :: rest) x = 0 := by
+    intro x hx
+    apply clipSum_zero_of_le
+    intro d hd
+    rcases List.mem_cons.mp hd with e | e
+    · rw [e]; exact hx
+    · exact le_trans hx (le_of_lt ((strictSorted_cons.mp hs).1 d e))
+  have hT : ∀ (i : Rat) (u : Rat), hasT (avgL i t0 r0 rest) u = hasT rest u := by
+    intro i u
+    have : ∀ (rest : Scale) (i pt pr : Rat), thresholds (avgL i pt pr rest) = thresholds rest := by
+      intro rest
+      induction rest with
+      | nil => intro i pt pr; rfl
+      | cons b rest ih =>
+        obtain ⟨t, r⟩ := b
+        intro i pt pr
+        have := ih (i + pr * (t - pt)) t r
+        simp only [thresholds] at this
+        simp [avgL, thresholds, this]
+    exact hasT_of_thresholds (this rest i t0 r0) u
+  by_cases hpos : 0 < t0
+  · have ha1 : addBracket [(0, 0)] t0 0 = [(0, 0)] ++ [(t0, 0)] :=
+      addBracket_append [(0, 0)] (by simp [StrictSorted]) t0 0 (by simpa using hpos)
+    have hsa : StrictSorted ([(0, 0)] ++ [(t0, 0)]) := strictSorted_snoc (by simp [StrictSorted]) t0 0 (by simpa using hpos)
+    refine ⟨⟨([(0, 0)] ++ [(t0, 0)]) ++ avgL 0 t0 r0 rest, some (lastRate r0 rest)⟩, ?_, rfl, ?_, ?_⟩
+    · unfold toAverage
+      simp only [hnil, hpos, if_true, ha1]
+      exact toAverageGo_eq rest 0 t0 r0 _ hs h0 hsa (by
+        intro c hc; simp at hc; rcases hc with e | e <;> subst e <;> simp [h0])
+    · intro c hc
+      simp only [List.cons_append, List.nil_append, List.mem_cons] at hc
+      rcases hc with e | e | e
+      · subst e; simp only [mul_zero]; exact (hzero 0 h0).symm
+      · subst e; simp only [zero_mul]; exact (hzero t0 (le_refl _)).symm
+      · have := avgL_spec rest 0 t0 r0 hs h0 c e
+        rw [this]; ring
+    · intro u
+      simp only [List.cons_append, List.nil_append]
+      rw [hasT_cons', hasT_cons', hT, hasT_cons']
+      have e1 : decide ((0 : Rat) = u) = decide (u = 0) := by
+        by_cases h : u = 0 <;> simp [h, eq_comm]
+      simp only [e1]
+  · have ht0 : t0 = 0 := by linarith [not_lt.mp hpos]
+    subst ht0
+    refine ⟨⟨[(0, 0)] ++ avgL 0 0 r0 rest, some (lastRate r0 rest)⟩, ?_, rfl, ?_, ?_⟩
+    · unfold toAverage
+      simp only [hnil, lt_irrefl, if_false]
+      exact toAverageGo_eq rest 0 0 r0 _ hs (le_refl _) (by simp [StrictSorted]) (by simp)
+    · intro c hc
+      simp only [List.cons_append, List.nil_append, List.mem_cons] at hc
+      rcases hc with e | e
+      · subst e; simp only [mul_zero]; exact (hzero 0 (le_refl _)).symm
+      · have := avgL_spec rest 0 0 r0 hs (le_refl _) c e
+        rw [this]; ring
+    · intro u
+      simp only [List.cons_append, List.nil_append]
+      rw [hasT_cons', hT, hasT_cons']
+      have e1 : decide ((0 : Rat) = u) = decide (u = 0) := by
+        by_cases h : u = 0 <;> simp [h, eq_comm]
+      simp only [e1]
+      cases decide (u = 0) <;> simp
+
 end OFCore.Sca
